@@ -178,6 +178,46 @@ theorem loop_head_entered_by_exhaustion {l : SLabel ε} (hs : sstep? c xs tail g
       · split at hs <;> cases hs <;> simp_all
     · rw [if_neg hp] at hs; cases hs
 
+/-! ### an abandoned stream asks for nothing -/
+
+/-- once the consumer has closed the stream (or dropped it: garbage collection closes it) neither the
+    source nor an inner iterator can be advanced, and whatever the consumer still does changes nothing -/
+theorem abandoned_is_inert {l : SLabel ε} (hpc : s.pc = .closed) (hs : sstep? c xs tail g s l = some s') :
+    s' = s ∧ l ≠ .draw ∧ l ≠ .pull := by
+  cases l with
+  | next => simp [sstep?, hpc] at hs; exact ⟨hs.symm, by simp, by simp⟩
+  | close => simp [sstep?, hpc] at hs; exact ⟨hs.symm, by simp, by simp⟩
+  | throw e => simp [sstep?, hpc] at hs
+  | draw => simp [sstep?, hpc] at hs
+  | pull => simp [sstep?, hpc] at hs
+
+/-- the same for any continuation: after a close every run leaves the state (draw counter, pull counter,
+    remaining inner items, output, counters) exactly as it was at the close -/
+theorem no_advance_after_close (hpc : s.pc = .closed) {ls : List (SLabel ε)}
+    (hr : srun c xs tail g s ls = some s') : s' = s ∧ (∀ l ∈ ls, l ≠ .draw ∧ l ≠ .pull) := by
+  induction ls with
+  | nil => simp [srun] at hr; exact ⟨hr.symm, by simp⟩
+  | cons l ls ih =>
+    simp only [srun] at hr
+    cases h1 : sstep? c xs tail g s l with
+    | none => rw [h1] at hr; cases hr
+    | some s1 =>
+      rw [h1] at hr
+      obtain ⟨e1, hd, hp⟩ := abandoned_is_inert hpc h1
+      subst e1
+      obtain ⟨e2, hall⟩ := ih hr
+      refine ⟨e2, ?_⟩
+      intro l' hl'
+      rcases List.mem_cons.mp hl' with rfl | hm
+      · exact ⟨hd, hp⟩
+      · exact hall l' hm
+
+/-- closing at a yield keeps the rest of the current inner iterator untouched: the close step itself pulls nothing -/
+theorem close_pulls_nothing (hs : sstep? c xs tail g s .close = some s') :
+    s'.drawn = s.drawn ∧ s'.pulls = s.pulls ∧ s'.inner = s.inner ∧ s'.out = s.out := by
+  simp only [sstep?] at hs
+  split at hs <;> (try cases hs) <;> simp_all
+
 /-! ### non-vacuity -/
 
 def exCfg : Cfg := ⟨1, 0, true⟩
@@ -239,3 +279,6 @@ end Gpv.C10
 #print axioms Gpv.C10.yield_waits
 #print axioms Gpv.C10.draw_after_exhaustion
 #print axioms Gpv.C10.loop_head_entered_by_exhaustion
+#print axioms Gpv.C10.abandoned_is_inert
+#print axioms Gpv.C10.no_advance_after_close
+#print axioms Gpv.C10.close_pulls_nothing
